@@ -93,6 +93,14 @@ func genAssertion(rng *rand.Rand, i int) *idp.Assertion {
 		}
 		attrs = append(attrs, at)
 	}
+	if i == 0 && rng.Intn(25) == 0 {
+		// a large multiset: the whole document stays below the validator's budget of 1000 elements per traversal
+		big := idp.Attribute{Name: "groups#big"}
+		for v := 450 + rng.Intn(350); v > 0; v-- {
+			big.Values = append(big.Values, fmt.Sprintf("g%d", v))
+		}
+		attrs = append(attrs, big)
+	}
 	a.Attrs = &attrs
 	if rng.Intn(6) == 0 {
 		a.Authn = nil
